@@ -8,6 +8,8 @@ Binding:  (a) the real twisted._threads.Team built by the real twisted._threads.
           harness calls that worker's perform(), so every schedule is harness-chosen.  One event per public
           call and per perform(); each carries the call outcome, the interactions with the collaborators
           (coordinator.do/quit, worker creation/do/quit, task runs, logException) and Team.statistics().
+          The same with the real LockWorker as coordinator (its work runs inline; the recorded step is cut at
+          logged markers into call + coordinator steps).
           (b) the real twisted.python.threadpool.ThreadPool under stress with real threads; events (submit,
           task begin/end, onResult, thread start/exit, stop call/return) are appended to one list in real-time
           order and validated as concurrent traces.  TLC decides.
@@ -32,10 +34,11 @@ ALL = -1
 class TeamRun:
     """The real Team from the real pool(), with memory workers behind logging proxies."""
 
-    def __init__(self, limit, hashes=None):
+    def __init__(self, limit, hashes=None, coordinator="memory"):
         from twisted._threads import _pool, _memory
         self._pool = _pool
         self.limit = limit
+        self.coordinator = coordinator
         self.sub = []          # interactions observed during the current step
         self.workers = []      # proxies, index = worker id - 1
         self.nT = 0
@@ -60,7 +63,34 @@ class TeamRun:
                 p.inner.quit()
 
         self.Proxy = Proxy
-        self.coord = Proxy(0)
+        if coordinator == "memory":
+            self.coord = Proxy(0)
+        else:
+            # the real LockWorker as coordinator: its work runs inline in the caller (queued when re-entrant);
+            # a marker with the statistics at that moment is logged where each unit of work starts, so that the
+            # step can be cut into "call" + "coordinator step(s)" for the specification
+            import threading
+            from twisted._threads import _threadworker
+            real = _threadworker.LockWorker(threading.Lock(), threading.local())
+
+            class LockProxy:
+                idx = 0
+
+                def do(p, work):
+                    run.sub.append(["cdo", 0])
+
+                    def marked():
+                        run.sub.append(["cbegin", run.stats()])
+                        work()
+                    real.do(marked)
+
+                def quit(p):
+                    run.sub.append(["cquit", 0])
+                    real.quit()
+
+                def perform(p):
+                    return False
+            self.coord = LockProxy()
 
         def make_worker(startThread, queue):
             w = Proxy(len(run.workers) + 1)
@@ -147,19 +177,40 @@ class TeamRun:
         raise ValueError(op)
 
 
-def run_history(limit, ops, hashes=None):
-    r = TeamRun(limit, hashes)
+def split_inline(e):
+    """Cut an event recorded with the LockWorker coordinator at its "cbegin" markers into the call / worker step
+    itself and the coordinator steps that ran inline."""
+    segs = [[]]
+    sts = []
+    for s in e["sub"]:
+        if s[0] == "cbegin":
+            sts.append(s[1])
+            segs.append([])
+        else:
+            segs[-1].append(s)
+    sts.append(e["st"])
+    out = [dict(e, sub=segs[0], st=sts[0])]
+    for i in range(1, len(segs)):
+        out.append({"e": "coord", "res": "true", "n": 0, "raised": False, "sub": segs[i], "st": sts[i]})
+    return out
+
+
+def run_history(limit, ops, hashes=None, coordinator="memory"):
+    r = TeamRun(limit, hashes, coordinator)
     ev = []
     done = []
     try:
         for op in ops:
+            if coordinator != "memory" and op[0] == "coord":
+                continue
             e = r.apply(tuple(op))
             if e is not None:
-                ev.append(e)
+                ev += split_inline(e)
                 done.append(list(op))
     finally:
         r.close()
-    return {"cfg": {"limit": limit}, "ops": done, "hashes": {str(k): v for k, v in (hashes or {}).items()}, "ev": ev}
+    return {"cfg": {"limit": limit}, "ops": done, "hashes": {str(k): v for k, v in (hashes or {}).items()},
+            "coordinator": coordinator, "ev": ev}
 
 
 def absval(x, seen, extra):
@@ -205,7 +256,7 @@ def state_key(r, used):
             r.limit, tuple(r.ran), tuple(sorted(used.items())))
 
 
-def explore(limit, budget, raises=(False, True), max_runs=None, max_depth=40):
+def explore(limit, budget, raises=(False, True), max_runs=None, max_depth=40, coordinator="memory"):
     """State-hashed depth-first enumeration of all schedules of the real Team within a budget of public calls
     (do/grow/shrink/setlimit/quit counts) -- coordinator and worker steps are unbounded but only taken when they
     do something.  Every reachable state of the real objects is visited and every op is tried from it once.
@@ -227,7 +278,8 @@ def explore(limit, budget, raises=(False, True), max_runs=None, max_depth=40):
             ops += [("setlimit", L) for L in (0, 1, 2) if L != r.limit]
         if used["quit"] < budget.get("quit", 0):
             ops.append(("quit",))
-        ops.append(("coord",))
+        if coordinator == "memory":
+            ops.append(("coord",))
         ops += [("work", w) for w in range(1, len(r.workers) + 1)]
         return ops
 
@@ -236,7 +288,7 @@ def explore(limit, budget, raises=(False, True), max_runs=None, max_depth=40):
             complete = False
             break
         prefix = stack.pop()
-        r = TeamRun(limit)
+        r = TeamRun(limit, None, coordinator)
         ev = []
         path = []
         used = dict(do=0, grow=0, shrink=0, setlimit=0, quit=0)
@@ -244,7 +296,7 @@ def explore(limit, budget, raises=(False, True), max_runs=None, max_depth=40):
             dead = False
             for op in prefix:
                 e = r.apply(op)
-                ev.append(e)
+                ev += split_inline(e)
                 path.append(list(op))
                 if op[0] in used:
                     used[op[0]] += 1
@@ -258,9 +310,11 @@ def explore(limit, budget, raises=(False, True), max_runs=None, max_depth=40):
                 ops = candidates(r, used)
                 for alt in ops[1:]:
                     stack.append(path + [alt])
+                if not ops:
+                    break
                 op = ops[0]
                 e = r.apply(op)
-                ev.append(e)
+                ev += split_inline(e)
                 path.append(list(op))
                 if op[0] in used:
                     used[op[0]] += 1
@@ -268,7 +322,7 @@ def explore(limit, budget, raises=(False, True), max_runs=None, max_depth=40):
                     break
         finally:
             r.close()
-        traces.append({"cfg": {"limit": limit}, "ops": path, "hashes": {}, "ev": ev})
+        traces.append({"cfg": {"limit": limit}, "ops": path, "hashes": {}, "coordinator": coordinator, "ev": ev})
     return traces, len(seen), complete
 
 
@@ -357,16 +411,23 @@ def check_team(ctx):
                      (0, dict(do=2, setlimit=1, grow=1, quit=1)), (2, dict(do=2, grow=1, shrink=1, setlimit=1, quit=1))]
     all_complete = True
     for limit, budget in programs:
-        ts, ns, complete = explore(limit, budget, max_runs=ctx.pick(1500, 6000))
+        ts, ns, complete = explore(limit, budget, max_runs=ctx.pick(1500, 4000))
         all_complete = all_complete and complete
         exh.append(dict(limit=limit, budget=budget, runs=len(ts), states=ns, complete=complete))
         ctx.log("explored real Team limit=%d budget=%s: %d runs, %d states, complete=%s" % (limit, budget, len(ts), ns, complete))
         traces += ts
+    # the same Team with the real LockWorker as coordinator (coordinator work runs inline in the caller)
+    for limit, budget in [(1, dict(do=2, shrink=1, quit=1)), (2, dict(do=2, grow=1, quit=1)), (0, dict(do=2, setlimit=1, grow=1, quit=1))]:
+        ts, ns, complete = explore(limit, budget, max_runs=ctx.pick(1500, 4000), coordinator="lock")
+        all_complete = all_complete and complete
+        exh.append(dict(limit=limit, budget=budget, coordinator="LockWorker", runs=len(ts), states=ns, complete=complete))
+        ctx.log("explored real Team + real LockWorker coordinator limit=%d budget=%s: %d runs, %d states, complete=%s" % (limit, budget, len(ts), ns, complete))
+        traces += ts
     ctx.extra["exhaustive_schedules"] = exh
     ctx.exhaustive = all_complete
-    for _ in range(ctx.pick(700, 15000)):
+    for i in range(ctx.pick(700, 10000)):
         limit, ops, hashes = random_history(ctx.rng, ctx.rng.randint(10, 45))
-        traces.append(run_history(limit, ops, hashes))
+        traces.append(run_history(limit, ops, hashes, coordinator="lock" if i % 4 == 3 else "memory"))
     ctx.note_traces(traces)
     ctx.log("recorded %d schedules of the real Team" % len(traces))
     rej = ctx.validate("TeamTrace", traces, shard_size=3000)
@@ -374,8 +435,9 @@ def check_team(ctx):
         t = traces[x.idx]
         ev = t["ev"][x.reached] if x.reached < len(t["ev"]) else None
         ctx.violation(team_fingerprint(t, x.reached),
-                      "real Team (memory workers) schedule not explained by Team.tla at event %d: %s; ops=%s" % (x.reached, ev, t["ops"][:x.reached + 1]),
-                      dict(kind="team", limit=t["cfg"]["limit"], ops=t["ops"][:x.reached + 1], hashes=t["hashes"], rejected_at=x.reached))
+                      "real Team (memory workers, %s coordinator) schedule not explained by Team.tla at event %d: %s; ops=%s" % (
+                          t.get("coordinator", "memory"), x.reached, ev, t["ops"][:x.reached + 1] if t.get("coordinator", "memory") == "memory" else t["ops"]),
+                      dict(kind="team", limit=t["cfg"]["limit"], ops=t["ops"], hashes=t["hashes"], coordinator=t.get("coordinator", "memory"), rejected_at=x.reached))
     bad = {x.idx for x in rej}
     good = [t for i, t in enumerate(traces) if i not in bad and len(t["ev"]) >= 6]
     _selftest(ctx, "TeamTrace", good[-300:], team_mutate, n=24)
@@ -597,7 +659,7 @@ def replay(ctx, obj):
                           dict(kind="pool", seed=obj["seed"], script=obj["script"], max=obj["max"], min=obj["min"], events=t["ev"][:x.reached + 1]))
         return
     if obj.get("kind", "team") == "team":
-        t = run_history(obj["limit"], [tuple(o) for o in obj["ops"]], {int(k): v for k, v in obj.get("hashes", {}).items()})
+        t = run_history(obj["limit"], [tuple(o) for o in obj["ops"]], {int(k): v for k, v in obj.get("hashes", {}).items()}, obj.get("coordinator", "memory"))
         ctx.note_trace(t)
         for e in t["ev"]:
             print(e)
